@@ -7,6 +7,7 @@ package checks
 
 import (
 	"bytes"
+	"context"
 	"errors"
 	"fmt"
 	"io"
@@ -589,7 +590,9 @@ func runRaceChild(name string, args ...string) (int, string, error) {
 	}
 	scratch := core.Scratch("race")
 	defer os.RemoveAll(scratch)
-	cmd := exec.Command(bin, append([]string{name}, args...)...)
+	ctx, cancel := context.WithTimeout(context.Background(), 20*time.Minute) // generous watchdog; firing = error -> inconclusive
+	defer cancel()
+	cmd := exec.CommandContext(ctx, bin, append([]string{name}, args...)...)
 	cmd.Env = append(os.Environ(), "GORACE=halt_on_error=0 log_path="+scratch+"/race")
 	out, err := cmd.CombinedOutput()
 	logs := ""
